@@ -16,10 +16,23 @@ class A:
         self.orientation = '-' if rev else '+'
 
 
-def check(set1, set2, combine):
+XMAP_HEAD = ("# XMAP File Version:\t0.2\n#h XmapEntryID\tQryContigID\tRefContigID\tQryStartPos\tQryEndPos\tRefStartPos\tRefEndPos\tOrientation\t"
+             "Confidence\tHitEnum\tQryLen\tRefLen\tLabelChannel\tAlignment\n#f int\tint\tint\tfloat\tfloat\tfloat\tfloat\tstring\tfloat\tstring\tfloat\tfloat\tint\tstring\n")
+
+
+def through_files(s):
+    """the alignment set as the comparison tool gets it: written as an XMAP file and read by the project's own reader"""
+    import io
+    from src.parsers.xmap_reader import XmapReader
+    rows = [f"{i + 1}\t{q}\t{r}\t0.0\t10.0\t0.0\t10.0\t+\t1.00\t1M\t100.0\t100.0\t1\t" + ''.join(f"({a},{b})" for a, b in p)
+            for i, (q, r, p) in enumerate(s)]
+    return XmapReader().readAlignments(io.StringIO(XMAP_HEAD + ''.join(x + "\n" for x in rows)))
+
+
+def check(set1, set2, combine, files=False):
     from src.diagnostic.alignment_comparer import AlignmentComparer, AlignmentRowComparer, AlignmentRowComparisonResultType as T
     bad = []
-    mk = lambda s: [A(q, r, p) for (q, r, p) in s]
+    mk = (lambda s: through_files(s)) if files else (lambda s: [A(q, r, p) for (q, r, p) in s])
     try:
         c = AlignmentComparer(AlignmentRowComparer(combine)).compare(mk(set1), mk(set2))
         cs = AlignmentComparer(AlignmentRowComparer(combine)).compare(mk(set2), mk(set1))
@@ -66,7 +79,8 @@ def check(set1, set2, combine):
 def run_chunk(cases):
     out, nt = [], 0
     for s1, s2, comb in cases:
-        bad = check(s1, s2, comb)
+        files = any(q > 2 ** 40 or r > 2 ** 40 for q, r, _ in tuple(s1) + tuple(s2))       # (the cases with huge ids go through XMAP text)
+        bad = check(s1, s2, comb, files)
         nt += 1 if s1 and s2 else 0
         if bad:
             out.append(((s1, s2, comb), bad))
@@ -88,6 +102,17 @@ def bounded(repo, tier, seed):
                 out.append((rnd.randint(1, 3), rnd.randint(1, 2), tuple((rnd.randint(1, 6), rnd.randint(1, 6)) for _ in range(n))))
             return tuple(out)
         cases.append((rs(), rs(), rnd.random() < 0.5))
+    # through files, as compare_alignments reads them: ids beyond 2^53 that differ in the last bit are different keys
+    rf = random.Random(seed * 7 + 2)
+    big = 2 ** 53
+    for _ in range(60 if tier == 'quick' else 1500):
+        def rsf():
+            out = []
+            for _ in range(rf.randint(1, 4)):
+                n = rf.randint(1, 4)          # (an XMAP record has at least one pair)
+                out.append((big + rf.randint(0, 3), rf.choice((1, 2, big + 1, big + 2)), tuple((rf.randint(1, 6), rf.randint(1, 6)) for _ in range(n))))
+            return tuple(out)
+        cases.append((rsf(), rsf(), rf.random() < 0.5))
     chunks = [cases[i:i + 400] for i in range(0, len(cases), 400)]
     res = pmap(run_chunk, chunks, repo)
     viol = {}
@@ -98,7 +123,7 @@ def bounded(repo, tier, seed):
     return result(sum(r[0] for r in res), sum(r[1] for r in res),
                   "pairs of alignment sets with <= 2 alignments over 3 (query, reference) keys and 6 pair lists (empty, duplicated query labels, shared and "
                   "exclusive pairs), with and without combining multiple query sources, plus random larger sets: key partition, set differences, measures in "
-                  "[0,1], reflexivity, swap symmetry; non-trivial = both sets non-empty", [dict(set1=cases[40][0], set2=cases[40][1], combine=cases[40][2])],
+                  "[0,1], reflexivity, swap symmetry; plus sets written as XMAP text and read by the project's reader (as compare_alignments gets them) with ids around 2^53; non-trivial = both sets non-empty", [dict(set1=cases[40][0], set2=cases[40][1], combine=cases[40][2])],
                   list(viol.values())[:5], exhaustive=(tier != 'quick'), bounds="<= 2 alignments per set (exhaustive part)")
 
 
@@ -107,5 +132,6 @@ def replay(repo, rp):
     use_repo(repo)
     i = rp['input']
     def tup(x): return tuple(tup(y) for y in x) if isinstance(x, (list, tuple)) else x
-    bad = check(tup(i['set1']), tup(i['set2']), i['combine'])
+    s1, s2 = tup(i['set1']), tup(i['set2'])
+    bad = check(s1, s2, i['combine'], any(q > 2 ** 40 or r > 2 ** 40 for q, r, _ in s1 + s2))
     return (not bad), bad
